@@ -92,17 +92,17 @@ func DrawConf(c *choice.Stream) *Conf {
 
 func (cf *Conf) Options() ch.Options {
 	return ch.Options{
-		ProtocolVersion:  cf.ClientRev,
-		Compression:      cf.Comp,
-		CompressionLevel: ch.CompressionLevel(cf.Level),
-		ReadTimeout:      cf.ReadTimeout,
-		User:             cf.User,
-		Password:         cf.Pass,
-		Database:         cf.Database,
-		QuotaKey:         cf.QuotaKey,
-		ClientName:       cf.ClientName,
-		Settings:         cf.Settings,
-		OpenTelemetryInstrumentation: cf.Otel,
+		ProtocolVersion:              cf.ClientRev,
+		Compression:                  cf.Comp,
+		CompressionLevel:             ch.CompressionLevel(cf.Level),
+		ReadTimeout:                  cf.ReadTimeout,
+		User:                         cf.User,
+		Password:                     cf.Pass,
+		Database:                     cf.Database,
+		QuotaKey:                     cf.QuotaKey,
+		ClientName:                   cf.ClientName,
+		Settings:                     cf.Settings,
+		OpenTelemetryInstrumentation: cf.Otel || otelOverride,
 	}
 }
 
